@@ -45,6 +45,7 @@ type vp11Path struct {
 	maxExch   int
 	closed    bool
 	dropped   int
+	emptyReply bool // refused types / oversized answers come back as an empty reply instead of silence
 }
 
 func (p *vp11Path) Close() error                       { p.closed = true; return nil }
@@ -87,6 +88,11 @@ func (p *vp11Path) SendAndReceive(m *mdns.Msg, timeout *time.Duration) (*mdns.Ms
 	q.Question[0].Name = string(name)
 	if p.allowed != nil && !p.allowed[q.Question[0].Qtype] {
 		p.dropped++
+		if p.emptyReply { // the resolver answers at once: REFUSED, no records
+			r := &mdns.Msg{}
+			r.SetRcode(q, mdns.RcodeRefused)
+			return r, time.Millisecond, nil
+		}
 		return nil, 0, vp11Timeout{}
 	}
 	resp, err := p.srv.onMessage(q, vp11Addr{"resolver"})
@@ -97,6 +103,12 @@ func (p *vp11Path) SendAndReceive(m *mdns.Msg, timeout *time.Duration) (*mdns.Ms
 	rw, err := resp.Pack()
 	if err != nil || (p.limit > 0 && len(rw) > p.limit) {
 		p.dropped++
+		if err == nil && p.emptyReply { // truncated: the header with TC set and no records
+			r := &mdns.Msg{}
+			r.SetReply(q)
+			r.Truncated = true
+			return r, time.Millisecond, nil
+		}
 		return nil, 0, vp11Timeout{}
 	}
 	out := &mdns.Msg{}
@@ -121,7 +133,7 @@ var vp11Types = map[int]map[uint16]bool{
 
 func VP_C11_Handshake() {
 	srv := NewServerDnsListener("t.example", &vp11Srv{})
-	path := &vp11Path{srv: srv, caseMode: vp.Param("case"), drop8bit: vp.Param("no8bit") == 1, allowed: vp11Types[vp.Param("types")], limit: vp.Param("limit"), maxExch: 400}
+	path := &vp11Path{srv: srv, caseMode: vp.Param("case"), drop8bit: vp.Param("no8bit") == 1, allowed: vp11Types[vp.Param("types")], limit: vp.Param("limit"), maxExch: 400, emptyReply: vp.Param("empty") == 1}
 	client, err := NewClientDnsConnection("t.example", path)
 	vp.Assert(err == nil, "client-created")
 	herr := client.Handshake()
